@@ -120,7 +120,10 @@ impl MigrationAction {
                 constraints,
             } => MigrationAction::CreateTable {
                 table: format!("{}{}", prefix, table),
-                columns,
+                columns: columns
+                    .into_iter()
+                    .map(|c| prefix_inline_foreign_key(c, prefix))
+                    .collect(),
                 constraints: constraints
                     .into_iter()
                     .map(|c| c.with_prefix(prefix))
@@ -135,7 +138,7 @@ impl MigrationAction {
                 fill_with,
             } => MigrationAction::AddColumn {
                 table: format!("{}{}", prefix, table),
-                column,
+                column: Box::new(prefix_inline_foreign_key(*column, prefix)),
                 fill_with,
             },
             MigrationAction::RenameColumn { table, from, to } => MigrationAction::RenameColumn {
@@ -206,6 +209,25 @@ impl MigrationAction {
             MigrationAction::RawSql { sql } => MigrationAction::RawSql { sql },
         }
     }
+}
+
+/// Apply a prefix to the table referenced by a column's inline `foreign_key`.
+/// Normalisation later promotes the inline declaration to a table-level constraint,
+/// so its target must carry the prefix like every other table reference.
+fn prefix_inline_foreign_key(mut column: ColumnDef, prefix: &str) -> ColumnDef {
+    use crate::schema::foreign_key::ForeignKeySyntax;
+    column.foreign_key = column.foreign_key.map(|fk| match fk {
+        ForeignKeySyntax::String(s) => ForeignKeySyntax::String(format!("{}{}", prefix, s)),
+        ForeignKeySyntax::Reference(mut r) => {
+            r.references = format!("{}{}", prefix, r.references);
+            ForeignKeySyntax::Reference(r)
+        }
+        ForeignKeySyntax::Object(mut o) => {
+            o.ref_table = format!("{}{}", prefix, o.ref_table);
+            ForeignKeySyntax::Object(o)
+        }
+    });
+    column
 }
 
 impl fmt::Display for MigrationAction {
